@@ -380,17 +380,6 @@ func langCase(fams []langFam, pads []int, langs []string, cfg cfgT) caseT {
 
 func scaleLang(c *Config) {
 	rng := c.Rng
-	if d := os.Getenv("C20_DUMP"); d != "" {
-		var sb strings.Builder
-		for _, f := range langFams {
-			for pad := 0; pad < 2300; pad++ {
-				sb.WriteString(f.name + "\x01" + f.content(pad, 1) + "\x00\x00")
-				sb.WriteString(f.name + "\x01" + f.content(pad, 2) + "\x00\x00")
-			}
-		}
-		os.WriteFile(d, []byte(sb.String()), 0644)
-		return
-	}
 	// every family x every pad size, the language sets rotating
 	n := 0
 	for fi, f := range langFams {
@@ -520,15 +509,21 @@ func treeCase(rng *rand.Rand, shape string, n int, period int, cfg cfgT) caseT {
 	noSub := restrictsLanguages(cfg)
 	snap := func() []fileT {
 		fs := make([]fileT, 0, len(cur))
+		var subs []string
 		for p, s := range cur {
 			switch s.mode {
 			case modeSub:
+				subs = append(subs, p)
 				fs = append(fs, small(p, modeSub, fmt.Sprintf("s%d", s.ver)))
 			case modeLink:
 				fs = append(fs, small(p, modeLink, fmt.Sprintf("f%d", s.ver)))
 			default:
 				fs = append(fs, small(p, s.mode, fmt.Sprintf("%x.%d\n", idx[p], s.ver)))
 			}
+		}
+		if cfg.failMissing { // the strict mode: every submodule entry is registered
+			sort.Strings(subs)
+			fs = append(fs, small(".gitmodules", modeReg, gitmodules(subs)))
 		}
 		return fs
 	}
@@ -578,21 +573,21 @@ func treeCase(rng *rand.Rand, shape string, n int, period int, cfg cfgT) caseT {
 
 func scaleTree(c *Config) {
 	cfgs := []cfgT{
-		{skip: []string{}},
+		{skip: []string{}, failMissing: true},
 		{skip: []string{}, langs: []string{"go"}},
 		{skip: []string{"vendor/", "lib/gen/", "d0001/", "z/z/z/z/z/z/z/z/z/z/"}, blacklist: true},
 		{skip: []string{}, regex: sp(`[02468]\.(go|py)$`), langs: []string{"python", "go"}},
 	}
 	shapes := []string{"flat", "dirs", "spine", "vendor"}
 	periods := []int{2, 3, 7, 8, 9, 15, 16, 17, 63, 64, 65, 255, 256, 257}
-	sizes := []int{1000, 3000}
+	sizes := []int{1025, 4097} // just above 2^10 and 2^12
 	if c.Thorough() {
-		sizes = []int{1000, 4097, 10000, 30000, 100000}
+		sizes = []int{1025, 4097, 10000, 32769, 65537, 100000}
 	}
 	k := 0
 	for _, n := range sizes {
 		for si, shape := range shapes {
-			if n >= 30000 && si%2 == 1 && n < 100000 {
+			if n > 30000 && n < 100000 && si%2 != (n/30000)%2 { // two of the four shapes
 				continue
 			}
 			if n >= 100000 && si != 1 {
@@ -609,9 +604,9 @@ func scaleTree(c *Config) {
 
 func scaleChain(c *Config) {
 	rng := c.Rng
-	lens := []int{1000}
+	lens := []int{1025}
 	if c.Thorough() {
-		lens = []int{1000, 10000}
+		lens = []int{1025, 10000}
 	}
 	for _, k := range lens {
 		// a long linear history
@@ -684,9 +679,9 @@ func scaleForks(c *Config) {
 	rng := c.Rng
 	emit(c, forksCase(rng, 40, 40, cfgT{skip: []string{}}))
 	emit(c, forksCase(rng, 300, 33, cfgT{skip: []string{}, langs: []string{"go"}}))
-	emit(c, forksCase(rng, 1000, 65, cfgT{skip: []string{"d/"}, blacklist: true}))
+	emit(c, forksCase(rng, 1025, 65, cfgT{skip: []string{"d/"}, blacklist: true}))
 	if c.Thorough() {
-		emit(c, forksCase(rng, 4000, 257, cfgT{skip: []string{}}))
+		emit(c, forksCase(rng, 4097, 257, cfgT{skip: []string{}}))
 	}
 }
 
